@@ -41,13 +41,19 @@ func (c FCase) failing() []int {
 	return f
 }
 
+var endedCtx = func() context.Context {
+	ctx, cancel := context.WithCancel(context.Background())
+	cancel()
+	return ctx
+}()
+
 // RunFaults is the engine behind C07.
 func RunFaults(e *Env) {
 	R := e.R
 	R.Rule = "fault grid: n in 3..5 x failing subset F (all subsets for n=3, seeded sample above) x failure kind per failing node (never started, stopped before the call, stopped while its handler is gated, connection reset before / during / while the request is still queued (sender held at a hook), " +
 		"connections refused, handler error with every status code, stopped after its reply left) x variant (QC, Async, Corr) x blocking/non-blocking dial x {threshold = healthy count, never-quorum}; " +
 		"oracle: success iff the healthy replies satisfy the quorum function; Incomplete lists exactly one error line per failing node and none for healthy ones, errors = |F|, replies = n - |F|, handler failures carry the scripted code and message, " +
-		"connection failures an unavailable-type error; no quorum-function invocation contains a failing node; calls complete (hang rule); distinct = grid point"
+		"connection failures an unavailable-type error; no quorum-function invocation contains a failing node; calls complete (hang rule); in half of the cases 4 calls with an already-ended context are issued on each healthy node while the call awaits that node's reply; distinct = grid point"
 	R.Assume("unavailable-type = gRPC code Unavailable (incl. gorums' 'stream is down'), Canceled/EOF from a torn transport; the observed texts are listed in the evidence")
 	rng := e.Rand(7)
 	var cases []FCase
@@ -242,9 +248,20 @@ func runFaultCase(e *Env, idx int, c FCase) {
 				if k != "" {
 					w = 300 * time.Millisecond
 				}
+				entered := false
 				select {
 				case <-plans[i].Entered():
+					entered = true
 				case <-time.After(w):
+				}
+				if entered && k == "" && (idx+call)%2 == 0 {
+					// impatient callers: while this call awaits the healthy node's reply (its handler is parked at the gate), other
+					// calls whose context has already ended are issued on the same node; they never touch the stream
+					for x := 0; x < 4; x++ {
+						ntok := h.NewToken()
+						cl.Node(i).RPC(endedCtx, &puppet.Req{Call: ntok, Seq: ntok, Kind: 7})
+					}
+					R.Count("noise.ended_context_calls_on_a_healthy_node_while_the_call_awaits_its_reply", 4)
 				}
 				plans[i].Open()
 			}
